@@ -3,6 +3,8 @@ CONSTANTS MaxItems = 2
  MaxSub = 0
  MaxBlocks = 0
  MaxDepth = 1
+ MaxLeaves = 99
+ Lean = FALSE
  Budget = 3
  IdOffs <- IdOffs4
  Rules = {"assume", "implies_intr", "implies_elim", "substitution", "theorem", "sorry", "", "subproof", "verif_gap1", "verif_id0"}
